@@ -2,6 +2,8 @@ package rules
 
 import (
 	"fmt"
+	"go/constant"
+	"os"
 	"go/token"
 	"strings"
 
@@ -25,6 +27,9 @@ type tsRule struct {
 	events func(fn *ssa.Function, ins ssa.Instruction, T func(ssa.Value) string) []string
 	// edges names events that happen when a branch edge is taken (may be nil)
 	edges func(ck *guard.Checker) map[cfgx.Edge]string
+	// condEv names the event that happens when the boolean v is known to be `truth` (may be nil): used where a branch
+	// tests a materialised `A && B` and the walk knows through which operand it arrived
+	condEv func(ck *guard.Checker, v ssa.Value, truth bool) string
 	// step: the transition; a non-empty message is a violation
 	step func(state uint8, ev string) (uint8, string)
 	// descend: walk into this helper call? (nil: every transparent helper)
@@ -33,29 +38,29 @@ type tsRule struct {
 
 type tsResult struct {
 	outs   map[uint8]bool
-	// outKinds: for each out state of a helper, whether it leaves through a return whose error result is nil (1),
-	// non-nil (2) or either (3); 3 for helpers without an error result
-	outKinds map[uint8]uint8
+	// outKinds: for each out state of a helper, how it can leave: "nil" / "err" (its error result), "c:<k>" (its
+	// single result is that constant: a boolean or an enum-like classification), "?" (anything else)
+	outKinds map[uint8]map[string]bool
 	bad    string
 	badAt  ssa.Instruction
 	counts map[string]int
 }
 
 func (t *tsRule) run(anchor *ssa.Function, init uint8) *tsResult {
-	total := &tsResult{outs: map[uint8]bool{}, outKinds: map[uint8]uint8{}, counts: map[string]int{}}
+	total := &tsResult{outs: map[uint8]bool{}, outKinds: map[uint8]map[string]bool{}, counts: map[string]int{}}
 	type key struct {
 		fn    *ssa.Function
 		subst string
 		st    uint8
 	}
 	memo := map[key]*tsResult{}
-	var walk func(f *ssa.Function, subst []string, st uint8, depth int) *tsResult
-	walk = func(f *ssa.Function, subst []string, st uint8, depth int) *tsResult {
+	var walk func(f *ssa.Function, subst []string, st uint8, depth int, parent *guard.Checker, args []ssa.Value) *tsResult
+	walk = func(f *ssa.Function, subst []string, st uint8, depth int, parent *guard.Checker, args []ssa.Value) *tsResult {
 		k := key{f, strings.Join(subst, "\x00"), st}
 		if s, ok := memo[k]; ok {
 			return s
 		}
-		sum := &tsResult{outs: map[uint8]bool{}, outKinds: map[uint8]uint8{}}
+		sum := &tsResult{outs: map[uint8]bool{}, outKinds: map[uint8]map[string]bool{}}
 		memo[k] = sum
 		res := t.r.Resolver(f)
 		T := func(v ssa.Value) string {
@@ -66,22 +71,59 @@ func (t *tsRule) run(anchor *ssa.Function, init uint8) *tsResult {
 			return s
 		}
 		var edgeEv map[cfgx.Edge]string
+		ck := &guard.Checker{P: t.r.P, Fn: f, Res: res, Subst: subst, Parent: parent, ArgVals: args}
 		if t.edges != nil {
-			edgeEv = t.edges(&guard.Checker{P: t.r.P, Fn: f, Res: res, Subst: subst})
+			edgeEv = t.edges(ck)
+			if os.Getenv("SAODEBUG") == "ts" {
+				for e, ev := range edgeEv {
+					fmt.Fprintf(os.Stderr, "ts edge %s b%d->b%d %s (st %d)\n", t.r.P.Name(f), e.From.Index, e.To.Index, ev, st)
+				}
+			}
 		}
 		// a walk state: the rule's state plus, right after a helper call, what is known about how the helper returned
 		// (so that the caller's `if err != nil` is followed only on the matching side)
 		type wst struct {
 			st   uint8
 			call ssa.Value // the helper call whose outcome is still pending a test (nil: none)
-			kind uint8     // 1 returned nil error, 2 returned an error
+			kind string    // how it returned: "nil", "err", "c:<k>"
+			via  int       // a block that branches on a φ of its own: the predecessor it was entered from, plus one
+			val  string    // what is known of the conditions this function branches on more than once ('?', '0', '1' each)
 		}
 		type ps struct {
 			b *ssa.BasicBlock
 			w wst
 		}
-		seen := map[ps]bool{{f.Blocks[0], wst{st: st}}: true}
-		q := []ps{{f.Blocks[0], wst{st: st}}}
+		// conditions tested by more than one branch of f: a path may not take them both ways
+		repeated := map[ssa.Value]int{}
+		definedIn := map[*ssa.BasicBlock][]int{}
+		{
+			uses := map[ssa.Value]int{}
+			var order []ssa.Value
+			for _, b := range f.Blocks {
+				if iff := cfgx.IfOf(b); iff != nil && len(b.Succs) == 2 {
+					cv, _ := stripNotV(iff.Cond)
+					if uses[cv] == 0 {
+						order = append(order, cv)
+					}
+					uses[cv]++
+				}
+			}
+			for _, cv := range order {
+				if uses[cv] < 2 || len(repeated) >= 16 {
+					continue
+				}
+				if _, isConst := cv.(*ssa.Const); isConst {
+					continue
+				}
+				repeated[cv] = len(repeated)
+				if ins, ok := cv.(ssa.Instruction); ok && ins.Block() != nil {
+					definedIn[ins.Block()] = append(definedIn[ins.Block()], repeated[cv])
+				}
+			}
+		}
+		val0 := strings.Repeat("?", len(repeated))
+		seen := map[ps]bool{{f.Blocks[0], wst{st: st, val: val0}}: true}
+		q := []ps{{f.Blocks[0], wst{st: st, val: val0}}}
 		apply := func(states []wst, ev string, at ssa.Instruction) []wst {
 			total.counts[ev]++
 			var out []wst
@@ -91,7 +133,8 @@ func (t *tsRule) run(anchor *ssa.Function, init uint8) *tsResult {
 				if msg != "" && sum.bad == "" {
 					sum.bad, sum.badAt = msg, at
 				}
-				n := wst{ns, s.call, s.kind}
+				n := s
+				n.st = ns
 				if !has[n] {
 					has[n] = true
 					out = append(out, n)
@@ -99,27 +142,41 @@ func (t *tsRule) run(anchor *ssa.Function, init uint8) *tsResult {
 			}
 			return out
 		}
-		errKind := func(fn *ssa.Function, b *ssa.BasicBlock) uint8 {
+		errKind := func(fn *ssa.Function, b *ssa.BasicBlock) string {
 			ret := b.Instrs[len(b.Instrs)-1].(*ssa.Return)
 			if len(ret.Results) == 0 {
-				return 3
+				return "?"
 			}
 			last := ret.Results[len(ret.Results)-1]
 			if !isErrorType(last.Type()) {
-				return 3
+				if c, ok := last.(*ssa.Const); ok && c.Value != nil && len(ret.Results) == 1 {
+					return "c:" + c.Value.ExactString()
+				}
+				return "?"
 			}
 			if c, ok := last.(*ssa.Const); ok && c.Value == nil {
-				return 1
+				return "nil"
 			}
 			if errNonNilAt(t.r, fn, b, last, 0) {
-				return 2
+				return "err"
 			}
-			return 3
+			return "?"
 		}
 		for len(q) > 0 && sum.bad == "" {
 			cur := q[0]
 			q = q[1:]
+			if idxs := definedIn[cur.b]; len(idxs) > 0 {
+				// recomputed in this block (a loop came round): nothing is known of the new value
+				bs := []byte(cur.w.val)
+				for _, i := range idxs {
+					bs[i] = '?'
+				}
+				cur.w.val = string(bs)
+			}
 			states := []wst{cur.w}
+			if os.Getenv("SAODEBUG") == "ts" {
+				fmt.Fprintf(os.Stderr, "ts visit %s b%d st=%d kind=%s val=%s\n", t.r.P.Name(f), cur.b.Index, cur.w.st, cur.w.kind, cur.w.val)
+			}
 			for _, ins := range cur.b.Instrs {
 				for _, ev := range t.events(f, ins, T) {
 					states = apply(states, ev, ins)
@@ -145,19 +202,15 @@ func (t *tsRule) run(anchor *ssa.Function, init uint8) *tsResult {
 				has := map[wst]bool{}
 				cv, _ := ins.(ssa.Value)
 				for _, s := range states {
-					hr := walk(h, hs, s.st, depth+1)
+					hr := walk(h, hs, s.st, depth+1, ck, call.Common().Args)
 					if hr.bad != "" && sum.bad == "" {
 						sum.bad, sum.badAt = hr.bad, hr.badAt
 					}
 					for o := range hr.outs {
-						kinds := hr.outKinds[o]
-						for _, kd := range []uint8{1, 2} {
-							if kinds&kd == 0 {
-								continue
-							}
-							n := wst{o, cv, kd}
-							if kinds == 3 && hr.outKinds[o] == 3 && !hasErrorResult(h) {
-								n = wst{st: o}
+						for kd := range hr.outKinds[o] {
+							n := wst{st: o, call: cv, kind: kd, val: s.val}
+							if kd == "?" || cv == nil {
+								n = wst{st: o, val: s.val}
 							}
 							if !has[n] {
 								has[n] = true
@@ -174,24 +227,78 @@ func (t *tsRule) run(anchor *ssa.Function, init uint8) *tsResult {
 				ek := errKind(f, cur.b)
 				for _, s := range states {
 					sum.outs[s.st] = true
-					sum.outKinds[s.st] |= ek
+					if sum.outKinds[s.st] == nil {
+						sum.outKinds[s.st] = map[string]bool{}
+					}
+					sum.outKinds[s.st][ek] = true
 				}
 			}
-			// a branch on the pending helper's error result: follow only the matching side
-			var errCall ssa.Value
-			nonNilSucc := -1
+			// a branch on the pending helper's outcome (its error result against nil, its boolean result, its result
+			// against a constant): follow only the matching side
+			var cond ssa.Value
 			if iff := cfgx.IfOf(cur.b); iff != nil && len(cur.b.Succs) == 2 {
-				errCall, nonNilSucc = errTestOf(iff.Cond)
+				cond = iff.Cond
+			}
+			// a branch on a boolean φ of this very block (a materialised `A && B`): on this path the φ is the operand
+			// that flowed in from the predecessor the block was entered from
+			var phiIn ssa.Value
+			phiPol := true
+			if cond != nil && cur.w.via > 0 {
+				cv, pol := stripNotV(cond)
+				if phi, ok := cv.(*ssa.Phi); ok && phi.Block() == cur.b && cur.w.via-1 < len(phi.Edges) {
+					phiIn, phiPol = phi.Edges[cur.w.via-1], pol
+				}
 			}
 			for si, nx := range cur.b.Succs {
 				for _, s := range states {
-					if errCall != nil && s.call == errCall {
-						if (si == nonNilSucc) != (s.kind == 2) {
-							continue
+					s.via = 0
+					if pv, ok := stripNotPhi(nx); ok {
+						for pi, pb := range nx.Preds {
+							if pb == cur.b {
+								s.via = pi + 1
+							}
+						}
+						_ = pv
+					}
+					follow, consumed := true, false
+					phiEv := ""
+					if phiIn != nil {
+						truth := (si == 0) == phiPol
+						if k, isC := phiIn.(*ssa.Const); isC && k.Value != nil && k.Value.Kind() == constant.Bool {
+							if constant.BoolVal(k.Value) != truth {
+								continue
+							}
+						} else if t.condEv != nil {
+							phiEv = t.condEv(ck, phiIn, truth)
 						}
 					}
+					if cond != nil && s.call != nil {
+						follow, consumed = outcomeBranch(cond, s.call, s.kind, si)
+					}
+					if !follow {
+						continue
+					}
 					ns := s
-					if ev, ok := edgeEv[cfgx.Edge{From: cur.b, To: nx}]; ok {
+					if cond != nil {
+						cv, pol := stripNotV(cond)
+						if i, ok := repeated[cv]; ok {
+							want := byte('0')
+							if (si == 0) == pol {
+								want = '1'
+							}
+							if s.val[i] != '?' && s.val[i] != want {
+								continue
+							}
+							bs := []byte(s.val)
+							bs[i] = want
+							ns.val = string(bs)
+						}
+					}
+					ev, ok := edgeEv[cfgx.Edge{From: cur.b, To: nx}]
+					if !ok && phiEv != "" {
+						ev, ok = phiEv, true
+					}
+					if ok {
 						total.counts[ev]++
 						var msg string
 						ns.st, msg = t.step(s.st, ev)
@@ -199,8 +306,8 @@ func (t *tsRule) run(anchor *ssa.Function, init uint8) *tsResult {
 							sum.bad, sum.badAt = msg, cur.b.Instrs[len(cur.b.Instrs)-1]
 						}
 					}
-					if errCall != nil && s.call == errCall {
-						ns.call, ns.kind = nil, 0 // consumed
+					if consumed {
+						ns.call, ns.kind = nil, ""
 					}
 					p := ps{nx, ns}
 					if !seen[p] {
@@ -212,7 +319,7 @@ func (t *tsRule) run(anchor *ssa.Function, init uint8) *tsResult {
 		}
 		return sum
 	}
-	top := walk(anchor, nil, init, 0)
+	top := walk(anchor, nil, init, 0, nil, nil)
 	total.outs, total.bad, total.badAt = top.outs, top.bad, top.badAt
 	return total
 }
@@ -220,6 +327,73 @@ func (t *tsRule) run(anchor *ssa.Function, init uint8) *tsResult {
 func hasErrorResult(h *ssa.Function) bool {
 	rs := h.Signature.Results()
 	return rs.Len() > 0 && isErrorType(rs.At(rs.Len()-1).Type())
+}
+
+// stripNotPhi: the block branches on a boolean φ defined in the block itself.
+func stripNotPhi(b *ssa.BasicBlock) (*ssa.Phi, bool) {
+	iff := cfgx.IfOf(b)
+	if iff == nil || len(b.Succs) != 2 {
+		return nil, false
+	}
+	cv, _ := stripNotV(iff.Cond)
+	phi, ok := cv.(*ssa.Phi)
+	if !ok || phi.Block() != b {
+		return nil, false
+	}
+	return phi, true
+}
+
+func stripNotV(v ssa.Value) (ssa.Value, bool) {
+	pol := true
+	for {
+		if u, ok := v.(*ssa.UnOp); ok && u.Op == token.NOT {
+			v, pol = u.X, !pol
+			continue
+		}
+		return v, pol
+	}
+}
+
+// outcomeBranch: cond tests the outcome of the pending helper call; is successor si compatible with the way the
+// helper is known to have returned, and is the knowledge used up by the test?
+func outcomeBranch(cond ssa.Value, call ssa.Value, kind string, si int) (follow, consumed bool) {
+	if ec, nonNilSucc := errTestOf(cond); ec != nil && ec == call && (kind == "nil" || kind == "err") {
+		return (si == nonNilSucc) == (kind == "err"), true
+	}
+	if !strings.HasPrefix(kind, "c:") {
+		return true, false
+	}
+	neg := false
+	for {
+		if u, ok := cond.(*ssa.UnOp); ok && u.Op == token.NOT {
+			cond, neg = u.X, !neg
+			continue
+		}
+		break
+	}
+	if cond == call {
+		// the boolean result itself
+		isTrue := kind == "c:true"
+		return (si == 0) == (isTrue != neg), true
+	}
+	bo, ok := cond.(*ssa.BinOp)
+	if !ok || (bo.Op != token.EQL && bo.Op != token.NEQ) {
+		return true, false
+	}
+	x, y := bo.X, bo.Y
+	if _, isC := x.(*ssa.Const); isC {
+		x, y = y, x
+	}
+	k, isC := y.(*ssa.Const)
+	if !isC || k.Value == nil || x != call {
+		return true, false
+	}
+	eq := kind == "c:"+k.Value.ExactString()
+	holds := eq == (bo.Op == token.EQL)
+	if neg {
+		holds = !holds
+	}
+	return (si == 0) == holds, eq
 }
 
 // errTestOf: the condition tests the error result of a call against nil: returns that call (as a value) and the
